@@ -96,6 +96,16 @@ Proof.
   all: try exact terminal_cancelled.
 Qed.
 
+Lemma reduce_terminal_iff state ex cursor cex e :
+  reduce_noop_cond state ex e = false ->
+  exists st' cu' res,
+    reduceMessageEventAppend state ex cursor cex e = (st', cu', true, res)
+    /\ isMessageEventTerminal (st_status st') = isMessageEventTerminalEvent (e_etype e).
+Proof.
+  intro H. destruct (reduce_apply state ex cursor cex e H) as (st' & cu' & res & E & S).
+  exists st', cu', res. split; [exact E | exact (as_terminal _ _ _ _ _ _ _ _ S)].
+Qed.
+
 (* c40_seq_strict, reducer form *)
 Lemma reduce_seq_strict state ex cursor cex e :
   let '(st', cu', did, res) := reduceMessageEventAppend state ex cursor cex e in
